@@ -57,6 +57,21 @@ def functions():
     if not extra:
         return t, funcs
     from verif_static import norm as N
+    # the locals (and, where no call names them by keyword, the parameters) of a factored-out helper are renamed apart first: `pm = guess(...)` with a helper that computes
+    # its own `pm` must not capture the caller's variables when written back in place
+    t = N.clone(t)
+    M.set_parents(t)
+    funcs = dict((f.name, f) for f in t.body if isinstance(f, ast.FunctionDef))
+    for hn in extra:
+        h = funcs[hn]
+        params = [a.arg for a in h.args.args]
+        by_kw = any(c.keywords for c in M.calls(t) if M.call_name(c) == hn)
+        ren = set(x.id for x in ast.walk(h) if isinstance(x, ast.Name) and isinstance(x.ctx, ast.Store)) | (set() if by_kw else set(params))
+        for x in ast.walk(h):
+            if isinstance(x, ast.Name) and x.id in ren:
+                x.id = x.id + '__' + hn
+            elif isinstance(x, ast.arg) and x.arg in ren:
+                x.arg = x.arg + '__' + hn
     out = {}
     for name, fn in funcs.items():
         if name in extra or not any((M.call_name(c) or '') in extra for c in M.calls(fn)):
@@ -570,6 +585,65 @@ def rule_newton(chk, funcs):
             if name.startswith('~') and name[1:] not in an.outs and name[1:] in an.env0:
                 return an.env0[name[1:]]
             return None
+        # the pressure function of a side is the rarefaction curve below the side's pressure and the shock curve above it - decided by the iterate it is evaluated at
+        pf = stripped(funcs['prefun_exact'])
+        pp = [a.arg for a in pf.args.args]
+        ifs = [x for x in pf.body if isinstance(x, ast.If)]
+        okb, whyb = False, 'prefun_exact has %d top-level branches (expected one if / else)' % len(ifs)
+        if len(ifs) == 1 and ifs[0].orelse and len(pp) >= 3:
+            def kind(stmts):
+                has_pow = any(isinstance(x, ast.BinOp) and isinstance(x.op, ast.Pow) for st in stmts for x in ast.walk(st))
+                has_sqrt = any(isinstance(x, ast.Call) and M.call_name(x) == 'sqrt' for st in stmts for x in ast.walk(st))
+                return 'rarefaction' if has_pow and not has_sqrt else 'shock' if has_sqrt and not has_pow else None
+            kb, ko = kind(ifs[0].body), kind(ifs[0].orelse)
+            names = set(x.id for x in ast.walk(ifs[0].test) if isinstance(x, ast.Name))
+            if set([kb, ko]) != set(['rarefaction', 'shock']):
+                whyb = 'the two branches are not the rarefaction (power law) and the shock (square root) curve'
+            elif not names <= set([pp[0], pp[2]]) and names <= set(pp) and an.loop is not None:
+                # the choice is handed in by the caller: it is fine when every call in the Newton loop computes it from the current iterate and that side's pressure
+                okb, whyb = True, ''
+                for c_ in [x for x in ast.walk(an.loop) if isinstance(x, ast.Call) and M.call_name(x) == 'prefun_exact']:
+                    bind = dict(zip(pp, c_.args))
+                    bind.update(dict((k_.arg, k_.value) for k_ in c_.keywords))
+                    in_loop = dict((compact(a_.targets[0]), a_.value) for a_ in ast.walk(an.loop) if isinstance(a_, ast.Assign) and isinstance(a_.targets[0], ast.Name)
+                                   and a_.lineno < c_.lineno)
+                    vals = {}
+                    for nm_ in names:
+                        e_ = bind.get(nm_)
+                        if isinstance(e_, ast.Name) and e_.id in in_loop:
+                            e_ = in_loop[e_.id]
+                        vals[nm_] = e_
+                    it_, ps_ = compact(bind[pp[0]]), compact(bind[pp[2]])
+                    extra_ = [nm_ for nm_ in names if nm_ not in (pp[0], pp[2])]
+                    for lo_, hi_ in ((1.0, 2.0), (2.0, 1.0)):
+                        env_ = {it_: lo_, ps_: hi_}
+                        try:
+                            loc_ = {pp[0]: lo_, pp[2]: hi_}
+                            for nm_ in extra_:
+                                if vals[nm_] is None or not set(x.id for x in ast.walk(vals[nm_]) if isinstance(x, ast.Name)) <= set(env_) or it_ not in [x.id for x in ast.walk(vals[nm_]) if isinstance(x, ast.Name)]:
+                                    raise ValueError('`%s` is `%s` at the call in line %d - not computed from the current iterate %s inside the loop' % (nm_, U(bind.get(nm_)) if bind.get(nm_) is not None else '?', c_.lineno, it_))
+                                loc_[nm_] = eval(compile(ast.Expression(body=vals[nm_]), '<arg>', 'eval'), {'__builtins__': {}}, env_)
+                            got_ = bool(eval(compile(ast.Expression(body=ifs[0].test), '<test>', 'eval'), {'__builtins__': {}}, loc_))
+                            if got_ != ((kb == 'rarefaction') == (lo_ < hi_)):
+                                okb, whyb = False, 'at the call in line %d the %s curve is used %s the pressure of the side' % (c_.lineno, kb if got_ else ko, 'below' if lo_ < hi_ else 'above')
+                        except Exception as ex_:          # noqa
+                            okb, whyb = False, 'the branch is chosen by `%s`: %s' % (U(ifs[0].test), ex_)
+            elif not names <= set([pp[0], pp[2]]):
+                whyb = 'the branch is chosen by `%s`, which depends on %s: it must be decided by comparing the pressure the function is evaluated at (%s) with the pressure of the side (%s), anew for every iterate' % (
+                    U(ifs[0].test), sorted(names - set([pp[0], pp[2]])), pp[0], pp[2])
+            else:
+                try:
+                    code = compile(ast.Expression(body=ifs[0].test), '<test>', 'eval')
+                    below = bool(eval(code, {'__builtins__': {}}, {pp[0]: 1.0, pp[2]: 2.0}))
+                    above = bool(eval(code, {'__builtins__': {}}, {pp[0]: 2.0, pp[2]: 1.0}))
+                    want_below = kb == 'rarefaction'
+                    okb = below == want_below and above == (not want_below)
+                    whyb = 'with `%s` the %s curve is used below the pressure of the side and the %s curve above it' % (U(ifs[0].test), kb if below else ko, kb if above else ko)
+                except Exception as ex_:          # noqa
+                    whyb = 'branch test `%s` could not be evaluated: %s' % (U(ifs[0].test), ex_)
+        chk.decide(okb, 'newton-step', 'prefun_exact:branch-by-the-iterate', node=ifs[0] if ifs else funcs['prefun_exact'], file=RS, func='prefun_exact',
+                   detail_bad=whyb + ' (a branch fixed before the iteration converges to the root of the wrong wave curve whenever the guess and the solution lie on different sides of it)',
+                   detail_ok='rarefaction for p <= p_side, shock above, tested on the current iterate')
         calls = [s for s in an.loop.body if isinstance(s, ast.Expr) and isinstance(s.value, ast.Call) and M.call_name(s.value) == 'prefun_exact']
         if len(calls) != 2:
             raise AnalysisError('exact no longer evaluates the pressure function once per side in its loop')
